@@ -18,6 +18,10 @@ import (
 // Known finding: `${property:file}` without `#key` indexes split[1] and panics.
 const findingNoSeparator = "property-placeholder-without-key-panics"
 
+// Known finding: a variable holding a negative number is cast with ParseInt + uint(...) for an
+// unsigned field and wraps around (limit: ${env:L}, L=-1 => 18446744073709551615) instead of being rejected.
+const findingUintWrap = "placeholder-negative-for-uint-wraps"
+
 // Placeholder modes.
 const (
 	pWhole       = "whole"        // the whole value is one placeholder
@@ -26,6 +30,7 @@ const (
 	pMissingKey  = "missing_key"  // ${property:file#key}, file has no such key
 	pMissingFile = "missing_file" // ${property:file#key}, no such file
 	pNoSeparator = "no_separator" // ${property:file} without #key
+	pInvalid     = "invalid_text" // the variable holds text that is no value of the field's kind / violates its constraint
 )
 
 // PhCase: a valid configuration whose scalar at Site/Key[/Elem] is the literal; the
@@ -41,6 +46,7 @@ type PhCase struct {
 	File  string `json:"file"`  // property file base name (inside the per-process temp dir)
 	From  int    `json:"from"`  // embedded: text[From:To] goes into the variable
 	To    int    `json:"to"`    //
+	Text  string `json:"text"`  // invalid_text: what the variable holds
 	Comp  string `json:"comp"`  // informative
 	Class string `json:"class"` // informative: value class of the field
 }
@@ -76,6 +82,35 @@ func literalText(v any) (string, bool) {
 	return "", false
 }
 
+// invalidTexts lists variable contents that are no value of the field's kind (clear cases
+// only: no digits-only text for durations / sizes / levels, which numbers may legally be)
+// or that violate the field's validate tag.
+func invalidTexts(f *cg.Field) []string {
+	var out []string
+	switch f.Class {
+	case cg.CBool:
+		out = []string{"maybe", "yes please"}
+	case cg.CInt:
+		out = []string{"abc", "12x"}
+	case cg.CUint:
+		out = []string{"abc", "12x", "-1"}
+	case cg.CFloat:
+		out = []string{"abc", "1,5"}
+	case cg.CDuration:
+		out = []string{"fast", "1 s"}
+	case cg.CDataSize:
+		out = []string{"big", "4 cows"}
+	case cg.CLevel:
+		out = []string{"loud"}
+	}
+	for _, v := range violations(f) {
+		if t, ok := literalText(v); ok {
+			out = append(out, t)
+		}
+	}
+	return out
+}
+
 func genPh(r *vf.Run) func(t *rapid.T) PhCase {
 	return func(t *rapid.T) PhCase {
 		root := cg.GenRoot(t, cg.DefaultOpts)
@@ -89,27 +124,42 @@ func genPh(r *vf.Run) func(t *rapid.T) PhCase {
 			s *cg.Site
 			f *cg.Field
 		}
-		var strs, others []pos
+		groups := map[string][]pos{}
 		for _, s := range sites {
 			for _, f := range s.Fields {
 				if cg.IsSkipped(s, f.Key) {
 					continue
 				}
 				switch {
-				case f.Class == cg.CString:
-					strs = append(strs, pos{s, f})
 				case scalarClass(f.Class):
-					others = append(others, pos{s, f})
+					groups[f.Class] = append(groups[f.Class], pos{s, f})
 				case f.Class == cg.CStrList:
 					if l, ok := s.Map[presentKey(s, f.Key)].([]any); ok && len(l) > 0 {
-						strs = append(strs, pos{s, f})
+						groups[f.Class] = append(groups[f.Class], pos{s, f})
 					}
 				}
 			}
 		}
-		cands := strs
-		if len(others) > 0 && (len(strs) == 0 || rapid.IntRange(0, 9).Draw(t, "nonstring") < 7) {
-			cands = others
+		// class first (so that the many bool keys do not crowd out the rest), then position,
+		// half of the time among the nested (depth >= 2) positions when there are any
+		var classes []string
+		for _, cl := range []string{cg.CString, cg.CString, cg.CBool, cg.CInt, cg.CInt, cg.CUint, cg.CFloat, cg.CDuration, cg.CDuration,
+			cg.CDataSize, cg.CLevel, cg.CStrList} {
+			if len(groups[cl]) > 0 {
+				classes = append(classes, cl)
+			}
+		}
+		cands := groups[rapid.SampledFrom(classes).Draw(t, "class")]
+		if rapid.Bool().Draw(t, "preferDeep") {
+			var deep []pos
+			for _, c := range cands {
+				if c.s.Depth >= 2 {
+					deep = append(deep, c)
+				}
+			}
+			if len(deep) > 0 {
+				cands = deep
+			}
 		}
 		p := cands[rapid.IntRange(0, len(cands)-1).Draw(t, "pos")]
 		c := PhCase{Site: p.s.PathString(), Key: presentKey(p.s, p.f.Key), Elem: -1, Comp: p.s.Comp.Label(), Class: p.f.Class}
@@ -141,7 +191,18 @@ func genPh(r *vf.Run) func(t *rapid.T) PhCase {
 		} else {
 			modes = append(modes, pMissingKey, pMissingFile, pNoSeparator)
 		}
+		bad := invalidTexts(p.f)
+		if len(bad) > 0 && c.Elem < 0 {
+			modes = append(modes, pInvalid)
+		}
 		c.Mode = rapid.SampledFrom(modes).Draw(t, "mode")
+		if c.Mode == pInvalid {
+			c.Text = rapid.SampledFrom(bad).Draw(t, "badtext")
+			if c.Class == cg.CUint && strings.HasPrefix(c.Text, "-") && r.IsKnown(findingUintWrap) {
+				r.Excluded(findingUintWrap)
+				c.Text = "abc"
+			}
+		}
 		if c.Mode == pNoSeparator && r.IsKnown(findingNoSeparator) {
 			r.Excluded(findingNoSeparator)
 			c.Mode = pMissingKey
@@ -275,6 +336,8 @@ func checkPh(c PhCase, o *vf.Obs) error {
 	// the variant's value and the variable's content
 	value, ph := text, c.placeholder()
 	switch c.Mode {
+	case pInvalid:
+		value = c.Text
 	case pEmbedded:
 		if c.From < 0 || c.To > len(text) || c.From > c.To {
 			return fmt.Errorf("bad split %d:%d of %q", c.From, c.To, text)
@@ -288,9 +351,9 @@ func checkPh(c PhCase, o *vf.Obs) error {
 		s.Map[c.Key] = ph
 	}
 
-	missing := c.Mode != pWhole && c.Mode != pEmbedded
+	mustReject := c.Mode != pWhole && c.Mode != pEmbedded
 	o.Class("src:"+c.Src, "mode:"+c.Mode, "class:"+class, "comp:"+s.Comp.Label(), depthClass(s.Depth))
-	o.ClassIf(missing, "missing:"+c.Mode)
+	o.ClassIf(mustReject && c.Mode != pInvalid, "missing:"+c.Mode)
 	o.ClassIf(class != cg.CString, "non_string_field")
 	o.ClassIf(c.Elem >= 0, "list_element")
 	if class != cg.CString {
@@ -319,7 +382,11 @@ func checkPh(c PhCase, o *vf.Obs) error {
 	}
 	o.Note("outcome", resP.String())
 
-	if missing {
+	if mustReject {
+		if resP.accepted() && c.Mode == pInvalid {
+			return fmt.Errorf("%s: %s/%s (%s %s) = %q with the variable holding %q was accepted, although %q is no valid value there",
+				c.Mode, c.Site, c.Key, s.Comp.Label(), class, ph, value, value)
+		}
 		if resP.accepted() {
 			return fmt.Errorf("%s: %s/%s (%s %s) = %q names nothing that exists, but the configuration was accepted",
 				c.Mode, c.Site, c.Key, s.Comp.Label(), class, ph)
@@ -357,6 +424,7 @@ func checkPh(c PhCase, o *vf.Obs) error {
 func TestPlaceholders(t *testing.T) {
 	r := startRun(t)
 	witnessNoSeparator(r)
+	witnessUintWrap(r)
 	vf.Check(r, genPh(r), checkPh)
 }
 
@@ -377,5 +445,21 @@ func witnessNoSeparator(r *vf.Run) {
 	}}}
 	if res := decodeAll(conf); res.panicked {
 		r.KnownHit(findingNoSeparator)
+	}
+}
+
+func witnessUintWrap(r *vf.Run) {
+	const name = "VERIF_C17_WITNESS_NEG"
+	os.Setenv(name, "-1")
+	defer os.Unsetenv(name)
+	conf := map[string]any{"pools": []any{map[string]any{
+		"gun":     map[string]any{"type": "http", "target": "127.0.0.1:80"},
+		"ammo":    map[string]any{"type": "uri", "file": cg.FileURI, "limit": "${env:" + name + "}"},
+		"result":  map[string]any{"type": "discard"},
+		"rps":     map[string]any{"type": "once", "times": 1},
+		"startup": map[string]any{"type": "once", "times": 1},
+	}}}
+	if res := decodeAll(conf); res.accepted() {
+		r.KnownHit(findingUintWrap)
 	}
 }
